@@ -8,7 +8,9 @@ package schemagen
 //
 // Envelope (things that belong to other properties): no two functions along one extends chain
 // whose Go names coincide, every exception type at most once per throws list (the generated type
-// switch would not compile otherwise), throws ids positive (0 is taken by "success").
+// switch would not compile otherwise), throws ids positive (0 is taken by "success"), no argument
+// named "nil" and no throws field named exactly "success" (thriftgo accepts both and generates Go
+// that does not compile: C01's business).
 
 import (
 	"fmt"
@@ -46,7 +48,7 @@ var collidingArgNames = []string{"p", "err", "ctx", "r", "_result", "type", "fun
 	"processor", "iprot", "oprot", "seqId", "retval", "err2", "x", "success", "Success", "v", "name", "client", "range",
 	"_args", "thrift", "context", "fmt", "string", "error", "len", "Args", "Result", "stream", "method"}
 
-var throwNames = []string{"e", "ex", "err", "failure", "oops", "success", "Success", "p", "ctx", "r", "e2", "type", "error", "_result"}
+var throwNames = []string{"e", "ex", "err", "failure", "oops", "Success", "p", "ctx", "r", "e2", "type", "error", "_result"}
 
 // goCanon approximates "same Go name": thriftgo upper-cases the first letter and removes
 // underscores followed by a letter (snake -> camel); comparing lower-cased, underscore-free forms
